@@ -519,6 +519,11 @@ class StateGen(object):
             pinned |= {6, 7}
             if is_rep:
                 gpr[1] = r.choice([0, 1, 2, 3, 5, 8, 16, r.randrange(17)])
+                if ('addr32' in info['prefixes'] or any(o['kind'] == 'mem' and o.get('asz') == 32 for o in ops)) \
+                        and gpr[1] and r.random() < 0.6:
+                    # address-size override: the count register is ECX; bits above it must not count (only with a
+                    # non-zero count: whether an untouched ECX clears the upper half of RCX is left open)
+                    gpr[1] |= r.choice([1, 7, r.getrandbits(32) | 1]) << 32
                 pinned.add(1)
             if cmn in ('cmps', 'scas') and r.random() < 0.6:
                 # equal prefixes so that repe/repne run for a while
